@@ -251,7 +251,7 @@ func regImmShift(f binaryExprFunc, i instruction, bits uint8, w expr.Width) expr
 }
 
 // signedRem is the RISC-V signed remainder of two w wide values: the result
-// has the sign of the dividend, reminder by zero is the dividend.
+// has the sign of the dividend, remainder by zero is the dividend.
 func signedRem(e1, e2 expr.Expr, w expr.Width) expr.Expr {
 	unsigned := exprtools.Mod(exprtools.Abs(e1, w), exprtools.Abs(e2, w), w)
 	return exprtools.BoolCond(
